@@ -4,43 +4,22 @@
 From LC Require Import Lib.Bytes Lib.Lex Lib.Fields Lib.PathM Model.Config Gen.Consts
   Model.MountInfo Model.FsTree Model.Kernel Model.Layers Cases.Verdict Cases.LC Cases.C02
   Proofs.PathP Proofs.PathCP Proofs.C02FsP Proofs.MountInfoP Proofs.C02MonadP Proofs.C02ForestP Proofs.C02KernelP
-  Proofs.RoundtripP Proofs.C02LayersP Proofs.C02aP Proofs.C02bP.
+  Proofs.RoundtripP Proofs.C02LayersP Proofs.C02aP Proofs.C02bP Proofs.LegalNameP.
 Local Open Scope nat_scope.
 
 (* ------------------------------------------------------------------ legal names are plain components *)
-Lemma legal_char_nosl ch : (is_alnum ch || (bn ch =? 95) || (bn ch =? 45))%N = true -> ch <> sl.
-Proof. intros H ->. vm_compute in H. discriminate. Qed.
-Lemma legal_rest_noslash s : legal_rest s = true -> noslash s.
-Proof.
-  induction s as [|ch r IH]; cbn [legal_rest]; [intros _ []|]. intros H. apply andb_true_iff in H as [H1 H2].
-  intros [E|Hin]; [symmetry in E; now apply (legal_char_nosl ch H1)|now apply IH].
-Qed.
-Lemma legal_first ch : (is_alnum ch || (bn ch =? 95))%N = true -> ch <> sl /\ ch <> nb 46.
-Proof. intros H. split; intros ->; vm_compute in H; discriminate. Qed.
 Lemma legal_plain n : legal_name n = true -> n <> [] -> plain n.
 Proof.
-  destruct n as [|ch r]; [congruence|]. cbn [legal_name]. intros H _. apply andb_true_iff in H as [H1 H2].
-  destruct (legal_first ch H1) as [F1 F2]. repeat split.
-  - discriminate.
-  - intros E. injection E as E _. apply F2. exact E.
-  - intros E. injection E as E _. apply F2. exact E.
-  - intros [E|Hin]; [congruence|]. now apply (legal_rest_noslash r H2).
+  intros H Hne. pose proof (legal_name_bytes n H) as Hc. rewrite Forall_forall in Hc.
+  unfold plain. split; [exact Hne|]. split; [|split].
+  - intros ->. specialize (Hc (nb 46) (or_introl eq_refl)). rewrite name_byte_dot in Hc. discriminate.
+  - intros ->. specialize (Hc (nb 46) (or_introl eq_refl)). rewrite name_byte_dot in Hc. discriminate.
+  - intros Hin. specialize (Hc sl Hin). change sl with (nb 47) in Hc. rewrite name_byte_sl in Hc. discriminate.
 Qed.
 Lemma legal_tok n : legal_name n = true -> n <> [] -> tok_ok n.
 Proof.
   intros H Hn. split; [exact Hn|]. apply nsp_intro. intros x Hx.
-  assert (L : legal_rest n = true).
-  { destruct n as [|ch r]; [reflexivity|]. cbn [legal_name legal_rest] in *. apply andb_true_iff in H as [H1 H2].
-    rewrite H2, andb_true_r. apply orb_true_iff in H1 as [H1|H1]; rewrite H1; [reflexivity|now rewrite orb_true_r]. }
-  clear H Hn. induction n as [|ch r IH]; [destruct Hx|]. cbn [legal_rest] in L. apply andb_true_iff in L as [L1 L2].
-  destruct Hx as [<-|Hx]; [|now apply IH].
-  destruct (is_sp ch) eqn:E; [|reflexivity]. exfalso. unfold is_sp in E. unfold is_alnum in L1.
-  repeat match goal with
-  | H : (_ || _)%bool = true |- _ => apply orb_true_iff in H as [H|H]
-  | H : (_ && _)%bool = true |- _ => apply andb_true_iff in H as [? H]
-  | H : (_ =? _)%N = true |- _ => apply N.eqb_eq in H
-  | H : (_ <=? _)%N = true |- _ => apply N.leb_le in H
-  end; lia.
+  pose proof (legal_name_in n x H Hx) as Hb. now destruct (name_byte_facts x Hb) as (_ & _ & _ & Hsp).
 Qed.
 
 Lemma stat_nolink f p : (forall t, fs_get f p <> Some (Link t)) -> stat f p = fs_get f p.
@@ -860,12 +839,10 @@ Proof.
   - intros Hin. apply in_app_or in Hin as [Hin|Hin]; [now apply H4|].
     vm_compute in Hin. repeat (destruct Hin as [Hin|Hin]; [discriminate|]). destruct Hin.
 Qed.
-Lemma legal_rest_app x y : legal_rest (x ++ y) = legal_rest x && legal_rest y.
-Proof. induction x as [|ch r IH]; cbn [app legal_rest]; [reflexivity|]. now rewrite IH, andb_assoc. Qed.
 Lemma illegal_removed a : legal_name (a ++ rsfx) = false.
 Proof.
-  destruct a as [|ch r]; [reflexivity|]. cbn [app legal_name]. rewrite legal_rest_app.
-  change (legal_rest rsfx) with false. now rewrite !andb_false_r.
+  apply (illegal_with (nb 126)); [exact name_byte_tilde|]. apply in_or_app. right.
+  vm_compute. now left.
 Qed.
 Lemma removed_ne a : a <> a ++ rsfx.
 Proof. intros E. apply (f_equal (@length _)) in E. rewrite app_length in E. cbn in E. lia. Qed.
@@ -1394,6 +1371,7 @@ Lemma ren_final K lb f : FinSt K lb f -> gforest (G f0) -> G f0 new = None -> ne
   gforest (G f).
 Proof.
   intros (HI & H1 & H2 & H3 & H4) HG Hfree Hn0' Ho0 Hgo Lnw HK PK.
+  clear Hnp Hcl0.     (* boolean facts about e: keep them out of lia's reach, the lemma does not depend on e *)
   apply (gforest_ext (g_ren (G f0) old new)); [|now apply gforest_ren].
   assert (Hloop : G f0 old <> Some old).
   { intros E. destruct (HG _ _ E) as (k & Hk). assert (greach (G f0) old (S k)) by (econstructor; eauto).
